@@ -1,6 +1,7 @@
 package loadbalancer
 
 import (
+	"net/http"
 	"time"
 
 	"github.com/0xReLogic/Helios/internal/circuitbreaker"
@@ -105,4 +106,49 @@ func VerifC12Breaker(i, j int, pre int) {
 	verifrt.WaitAll()
 	verifrt.Reach("pair completed")
 	_ = circuitbreaker.StateClosed
+}
+
+var verifLBOps = []string{"request served 200", "request answered 503 by the backend (passive checks, threshold 1)", "AddBackend", "RemoveBackend", "SetStrategy",
+	"ListBackends", "probe fails", "probe succeeds", "GetMetrics"}
+
+// VerifC12LB: two balancer-level operations run concurrently (every unordered
+// pair of 9: traffic that succeeds / fails with passive checks on, the three
+// admin mutations, the admin listing, probe results, the metrics read) on a
+// balancer with two backends, passive checks (threshold 1) and metrics.
+// Built-in assertions only: no race, deadlock, WaitGroup misuse or panic.
+func VerifC12LB(i, j int) {
+	lb, bs := verifFullLB(0, 2, verifFeatPassive)
+	lb.healthChecks.passiveThreshold = 1
+	op := func(k int) func() {
+		return func() {
+			switch k {
+			case 0, 1:
+				r := verifRequest("10.1.2.3:4711")
+				r.Header.Set("X-Verif-Outcome", []string{"200", "503"}[k])
+				rec := verifNewRecorder()
+				verifServe(lb, rec, rec.finish, r)
+			case 2:
+				lb.AddBackend(config.BackendConfig{Name: "n", Address: "http://n:80"})
+			case 3:
+				lb.RemoveBackend(bs[0].Name)
+			case 4:
+				lb.SetStrategy("least_connections")
+			case 5:
+				for _, in := range lb.ListBackends() {
+					_ = in.Healthy
+					_ = in.ActiveConnections
+				}
+			case 6:
+				lb.handleHealthCheckFailure(bs[0], verifProbeErr)
+			case 7:
+				lb.processHealthCheckResponse(bs[0], &http.Response{StatusCode: http.StatusOK})
+			case 8:
+				verifMetricsOp(lb.metricsCollector, 0)
+			}
+		}
+	}
+	verifrt.Go(op(i))
+	verifrt.Go(op(j))
+	verifrt.WaitAll()
+	verifrt.Reach("pair completed")
 }
